@@ -137,6 +137,7 @@ package keeper
 
 // DeleteMeta removes a data model and its alias
 //@ func (Keeper) DeleteMeta(ctx, dataId) (err)
+//@   nopanic [C02.deletemeta.nopanic]
 //@   modifies Metadata[dataId], Model[sprintf("%s-%s-%s", Metadata[dataId].Owner, Metadata[dataId].Alias, Metadata[dataId].GroupId)]
 //@   ensures [C09.deletemeta] err == nil ==> old(has(Metadata, dataId)) && !has(Metadata, dataId) && !has(Model, sprintf("%s-%s-%s", old(Metadata[dataId].Owner), old(Metadata[dataId].Alias), old(Metadata[dataId].GroupId)))
 //@   ensures [C09.deletemeta.err] err != nil ==> !old(has(Metadata, dataId)) && !has(Metadata, dataId)
